@@ -26,6 +26,8 @@ FIX = [  # (substring of commit subject, property, key at the time, what failed)
  ('ReverseTranslate accepts a pointer', 'C20', 'crash:transform.(*Transformer).ReverseTranslate', 'an inner source or watcher (e.g. a Blank) handing a POINTER to the translated struct through a transforming source panicked (slice bounds out of range)'),
  ('a wrapped watching source', 'C20', 'wrapped-watcher-update-not-reversed', 'updates through NewTransformingSource reached the monitor in the mangled type'),
  ('AnonymousFlattenMangler.Unmangle indexed past', 'C10', 'panic:transform.AnonymousFlattenMangler.unmangleStruct', 'chain starting with AnonymousFlattenMangler on a slice/array of structs whose element embeds a struct with a field after the last hoisted one (trailing unexported field): index out of range in ReverseTranslate'),
+ ('SingleTypeSubstitutionMangler took the address', 'C10', 'panic:transform.(*SingleTypeSubstitutionMangler).subVal', 'Cfg{Waits *[]time.Duration} (or *map[string]time.Duration) through a decoder that substitutes durations (JSON, YAML): reflect.Value.Addr of unaddressable value in subVal on ReverseTranslate'),
+ ('DecodeGoCamelCase dropped the words', 'C19', 'goident-mismatch:word,first,start', 'a capitalised word ending in a digit directly before a final initialism lost every word but the last letter: Sha256ID -> [d], Port2HTTP -> [p], Md5URL -> [l]'),
  ('recognizes initialisms that have', 'C19', 'goident-mismatch:initialism=HTTPS', 'HTTPS -> [http s], UID -> [ui d]'),
  ('splits a trailing run', 'C19', 'goident-mismatch:trailing-run-UTF8', 'IDXMLUTF8 -> [idxmlutf8]'),
 ]
